@@ -165,6 +165,41 @@ def gen_defpath(rng):
     return "%s %s %s %s %s" % (hx(name), hx(cmd), pl(ins), pl(pars), pl(tags))
 
 
+def same_pattern_case(args):
+    """several processes of one workflow with the very same command pattern text, each fed its own parameter values, forming
+    their tasks at the same time: every command is expanded from the values of its own task (the output's name says which)"""
+    seed, i = args
+    from tools import t3
+    rng = random.Random(seed * 553105253 + i)
+    sp = t3.Spec(maxtasks=8, bufsize=rng.choice([1, 128]))
+    K, N = rng.randint(3, 6), rng.randint(20, 50)
+    for k in range(K):
+        a = ["p%dv%d" % (k, j) for j in range(N)]
+        b = ["q%dw%d" % (k, j) for j in range(N)]
+        sp.proc(t3.RawProc("same%d" % k, "echo {p:a} {p:b} > {o:out}", ins=[], pars=[("a", ("V", a)), ("b", ("V", b))], outs=[("out", "o%d/{p:a}_{p:b}.txt" % k)]))
+    sc = t3.Scratch()
+    try:
+        sc.plant(sp.files)
+        impl = t3.run_impl(sc, sp, timeout=120)
+        problems = []
+        if impl["rc"] != 0 or not impl["returned"]:
+            problems.append("the workflow fails (exit %s): %s" % (impl["rc"], impl["stderr"][-300:]))
+        else:
+            files = t3.data_files(impl["fs"])
+            wrong = []
+            for k in range(K):
+                for j in range(N):
+                    path = "o%d/p%dv%d_q%dw%d.txt" % (k, k, j, k, j)
+                    want = "p%dv%d q%dw%d\n" % (k, j, k, j)
+                    if files.get(path) != want:
+                        wrong.append((path, files.get(path)))
+            if wrong:
+                problems.append("%d processes with the same command pattern 'echo {p:a} {p:b} > {o:out}': %d of %d commands were not expanded from their own task's values, e.g. %s holds %r" % (K, len(wrong), K * N, wrong[0][0], wrong[0][1]))
+        return {"problems": problems, "spec": sp.text(), "bufsize": sp.bufsize, "rc": impl["rc"], "stderr": impl["stderr"][-200:]}
+    finally:
+        sc.close()
+
+
 def run(rep, tier, seed):
     proved = vlib.prove(rep, MODULE, THEOREMS)
     ok, msg = vlib.build_ocaml()
@@ -194,6 +229,16 @@ def run(rep, tier, seed):
                 found = True
                 break
     alld = [("format", lines, diffs)]
+    # (1a) T3: the same pattern text in several processes that form tasks concurrently
+    if not found:
+        from tools import t3 as _t3
+        for r in _t3.run_many(same_pattern_case, [(seed, k) for k in range(3 if tier == "quick" else 30)], workers=3):
+            total += 1
+            if r["problems"]:
+                rep.violation(r["problems"][0], {"kind": "command-from-other-task", "spec": r["spec"], "bufsize": r["bufsize"]})
+                found = True
+                break
+        dist["same_pattern_workflows"] = 3 if tier == "quick" else 30
     # (1b) joined in-ports: the placeholder expands to the members in the order they arrived, separated by SEP, each
     # resolvable from the temp dir ("../" in front of relative paths)
     if not found:
